@@ -238,6 +238,24 @@ func (p *pair) step(op string, pos int) (string, string) {
 			}
 		}
 		return "", ""
+	case "reload-full-cleanupfail":
+		// the database switch succeeds, then the removal of the processed signal file fails (the control
+		// directory is a regular file: this binary): Reload returns that error on both handlers, and whatever
+		// state it leaves behind, the cache must stay invisible
+		p.gen++
+		if p.gen > 3 {
+			p.gen = 3
+		}
+		exe, _ := os.Executable()
+		for _, h := range []*dnsfix.Handler{p.cached, p.plain} {
+			h.H.SetControlPathForVerif(exe)
+			err := h.H.Reload(*dnsserver.NewFullReloadSignal(files[p.gen]))
+			h.H.SetControlPathForVerif("")
+			if err == nil {
+				return "reload", "harness: the signal file removal was expected to fail"
+			}
+		}
+		return "", ""
 	case "reload-partial":
 		for _, h := range []*dnsfix.Handler{p.cached, p.plain} {
 			if err := h.H.Reload(*dnsserver.NewPartialReloadSignal()); err != nil {
@@ -531,7 +549,7 @@ func main() {
 		ops = append(ops, q.id)
 		keyOf[q.id] = fmt.Sprintf("%s|%s|%d|%d|ecs=%v", q.client, strings.ToLower(q.name), q.qtype, q.qclass, q.edns == "ecs")
 	}
-	ops = append(ops, "reload-full", "reload-partial")
+	ops = append(ops, "reload-full", "reload-partial", "reload-full-cleanupfail")
 	files = map[int]string{}
 	for g := 1; g <= 3; g++ {
 		p, err := dnsfix.Compile(dir, dnsfix.CDB, genData(g))
